@@ -99,7 +99,7 @@ pub fn generate(prop: &str, run_seed: u64, _index: u64, tier: Tier) -> Trace {
     let base: &[(u16, u32)] = &[
         (K_ALLOC, 24), (K_GROW, 10), (K_SHRINK, 8), (K_DEALLOC, 10), (K_PREP, 4), (K_RESERVE, 2), (K_CHECKPOINT, 2), (K_RESET_TO, 2),
         (K_SCOPED, 4), (K_GUARD, 2), (K_GUARD_RESET, 1), (K_ALIGNED, 2), (K_SCOPED_ALIGNED, 2), (K_CLAIM, 1), (K_END, 7), (K_UNWIND, 1),
-        (K_TYPED, 6), (K_TRIPLE, 2), (K_GROWTIP, 2), (K_RESET, 1), (K_RESET_TO_START, 1), (K_RAW_ROUNDTRIP, 1),
+        (K_TYPED, 6), (K_WITH_SETTINGS, 1), (K_TRIPLE, 2), (K_GROWTIP, 2), (K_RESET, 1), (K_RESET_TO_START, 1), (K_RAW_ROUNDTRIP, 1),
     ];
     for &(k, x) in base {
         w[k as usize] = x;
@@ -114,7 +114,7 @@ pub fn generate(prop: &str, run_seed: u64, _index: u64, tier: Tier) -> Trace {
         "C12" => boost(&mut w, &[K_ALLOC, K_RESERVE, K_PREP, K_GROW], 2),
         "C13" => boost(&mut w, &[K_TRIPLE, K_GROWTIP, K_DEALLOC, K_SHRINK], 4),
         "C14" => boost(&mut w, &[K_CLAIM], 12),
-        "C18" => boost(&mut w, &[K_ALIGNED, K_SCOPED_ALIGNED], 6),
+        "C18" => boost(&mut w, &[K_ALIGNED, K_SCOPED_ALIGNED, K_WITH_SETTINGS], 6),
         "C05" => boost(&mut w, &[K_RESET, K_RESET_TO_START, K_RAW_ROUNDTRIP], 3),
         _ => {}
     }
@@ -191,6 +191,10 @@ pub fn generate(prop: &str, run_seed: u64, _index: u64, tier: Tier) -> Trace {
             K_ALIGNED | K_SCOPED_ALIGNED => {
                 stack.push(k);
                 Op::new(k, &[r.below(5)])
+            }
+            K_WITH_SETTINGS => {
+                stack.push(k);
+                Op::new(k, &[r.below(2)])
             }
             K_GUARD_RESET => Op::new(k, &[]),
             K_END => {
